@@ -231,10 +231,25 @@ def replay(pid, path):
     first = rec.get('first', {})
     case = first.get('case')
     print('replay of %s: %s' % (pid, first.get('what')))
-    if not case or not isinstance(case, str) or case.split(' ')[0] not in 'LVMEAD':
+    if first.get('program'):
+        print('negative program (must not be accepted by the compiler):')
+        print(first['program'])
+        res = run_negative_c17(pid, rec.get('tier', 'quick'), rec.get('seed', 1))
+        print('now:', json.dumps(res['coverage'], indent=1))
+        return 0
+    ops = ('L', 'V', 'M', 'E', 'A', 'D', 'H', 'IO', 'P')
+    if not case or not isinstance(case, str) or case.split(' ')[0] not in ops:
         print('recorded detail:', json.dumps(first, indent=1)[:3000])
         return 0
-    sid = case.split(' ')[2]
+    if case.split(' ')[0] == 'P':
+        runner = vlib.build_runner()
+        harness = vlib.build_harness(type_shapes('quick', rec.get('seed', 1)))
+        cid = case.split(' ')[1]
+        print('case :', case)
+        print('model:', vlib.run_model(runner, [case]).get(cid))
+        print('impl :', vlib.run_rust(harness, [case]).get(cid))
+        return 0
+    sid = case.split(' ')[3] if case.split(' ')[0] == 'IO' else case.split(' ')[2]
     for tier in ('quick', 'thorough'):
         shapes = type_shapes(tier, rec.get('seed', 1))
         if sid in dict(shapes):
